@@ -575,10 +575,10 @@ def _make(ctx, f):
     ctx.check(ok, "C18c-options-routed", f,
               "prefix, enzyme and reverse reach _shuffle_proteins",
               f"{show(DEC, 200) if DEC else None}", node=f.node)
-    opens = [n for n in ast.walk(f.node) if isinstance(n, ast.Call)
-             and callee_is(prog, f, n, "open")]
-    ok_o = len(opens) == 1 and str(const_value(
-        opens[0].args[1] if len(opens[0].args) > 1 else None, "r"))[0] == "w"
+    from ..effects import open_calls
+    oc = open_calls(prog, f)
+    opens = [c_ for c_, _m in oc]
+    ok_o = len(oc) == 1 and str(oc[0][1] or "r")[:1] == "w"
     ctx.check(ok_o, "C18c-output-truncated", f,
               "the output file is written afresh",
               f"{[ast.unparse(o) for o in opens]}", node=f.node)
